@@ -93,4 +93,7 @@ def translated : List String := ["MintToken_guard_1(read_owner_String,token_Owne
 /-- every rejecting guard of the translated functions, in source order -/
 def guards : List String := ["MintToken: token, err := k.getTokenByMinUnit(ctx, coinMinted.Denom); err != nil", "MintToken: owner.String() != token.Owner", "MintToken: !token.Mintable", "MintToken: coinMinted.Amount.GT(mintableAmt)", "MintToken: err := k.bankKeeper.MintCoins(ctx, types.ModuleName, mintCoins); err != nil", "EditToken: token, err := k.getTokenBySymbol(ctx, symbol); err != nil", "EditToken: owner.String() != token.Owner", "EditToken: sdkmath.NewIntFromUint64(maxSupply).Mul(precision).LT(issuedAmt)", "GetTokenMintFee: token, err := k.GetToken(ctx, fee.Denom); err != nil", "feeHandler: err := k.bankKeeper.SendCoinsFromAccountToModule( ctx, feeAcc, types.ModuleName, sdk.NewCoins(fee), ); err != nil", "feeHandler: err := k.bankKeeper.SendCoinsFromModuleToModule(ctx, types.ModuleName, k.feeCollectorName, sdk.NewCoins(communityTaxCoin)); err != nil", "Keeper.IssueToken: err := k.AddToken(ctx, token, true); err != nil", "Keeper.IssueToken: err := k.bankKeeper.MintCoins(ctx, types.ModuleName, mintCoins); err != nil", "Keeper.BurnToken: _, err := k.getTokenByMinUnit(ctx, coinBurnt.Denom); err != nil", "Keeper.BurnToken: err := k.bankKeeper.SendCoinsFromAccountToModule(ctx, owner, types.ModuleName, burnCoins); err != nil", "Keeper.TransferTokenOwner: token, err := k.getTokenBySymbol(ctx, symbol); err != nil", "Keeper.TransferTokenOwner: srcOwner.String() != token.Owner", "Keeper.SwapFeeToken: burnedCoin, mintedCoin, err := k.calcFeeTokenMinted(ctx, feePaid); err != nil", "Keeper.SwapFeeToken: err := k.bankKeeper.SendCoinsFromAccountToModule(ctx, sender, types.ModuleName, burnedCoins); err != nil", "Keeper.SwapFeeToken: err := k.bankKeeper.BurnCoins(ctx, types.ModuleName, burnedCoins); err != nil", "Keeper.SwapFeeToken: err := k.bankKeeper.MintCoins(ctx, types.ModuleName, mintedCoins); err != nil", "msgServer.IssueToken: owner, err := sdk.AccAddressFromBech32(msg.Owner); err != nil", "msgServer.IssueToken: m.k.blockedAddrs[msg.Owner]", "msgServer.IssueToken: err := m.k.DeductIssueTokenFee(ctx, owner, msg.Symbol); err != nil", "msgServer.IssueToken: err := m.k.IssueToken( ctx, msg.Symbol, msg.Name, msg.MinUnit, msg.Scale, msg.InitialSupply, msg.MaxSupply, msg.Mintable, owner, ); err != nil", "msgServer.EditToken: owner, err := sdk.AccAddressFromBech32(msg.Owner); err != nil", "msgServer.EditToken: err := m.k.EditToken( ctx, msg.Symbol, msg.Name, msg.MaxSupply, msg.Mintable, owner, ); err != nil", "msgServer.MintToken: owner, err := sdk.AccAddressFromBech32(msg.Owner); err != nil", "msgServer.MintToken: recipient, err = sdk.AccAddressFromBech32(msg.Receiver); err != nil", "msgServer.MintToken: m.k.blockedAddrs[recipient.String()]", "msgServer.MintToken: symbol, err := m.k.getSymbolByMinUnit(ctx, msg.Coin.Denom); err != nil", "msgServer.MintToken: err := m.k.DeductMintTokenFee(ctx, owner, symbol); err != nil", "msgServer.MintToken: err := m.k.MintToken(ctx, msg.Coin, recipient, owner); err != nil", "msgServer.BurnToken: owner, err := sdk.AccAddressFromBech32(msg.Sender); err != nil", "msgServer.BurnToken: err := m.k.BurnToken(ctx, msg.Coin, owner); err != nil", "msgServer.TransferTokenOwner: srcOwner, err := sdk.AccAddressFromBech32(msg.SrcOwner); err != nil", "msgServer.TransferTokenOwner: dstOwner, err := sdk.AccAddressFromBech32(msg.DstOwner); err != nil", "msgServer.TransferTokenOwner: m.k.blockedAddrs[msg.DstOwner]", "msgServer.TransferTokenOwner: err := m.k.TransferTokenOwner(ctx, msg.Symbol, srcOwner, dstOwner); err != nil", "msgServer.SwapFeeToken: sender, err := sdk.AccAddressFromBech32(msg.Sender); err != nil", "msgServer.SwapFeeToken: recipient, err = sdk.AccAddressFromBech32(msg.Receiver); err != nil", "msgServer.SwapFeeToken: m.k.blockedAddrs[msg.Receiver]", "msgServer.SwapFeeToken: feePaid, feeGot, err := m.k.SwapFeeToken(ctx, msg.FeePaid, sender, recipient); err != nil"]
 
+/-- every statement of the translated functions executed for its effect, with its nesting depth, in source order -/
+def effects : List String := ["EditToken: d1 token.MaxSupply = maxSupply", "EditToken: d1 token.Name = name", "EditToken: d2 metadata.Description = name", "EditToken: d2 k.bankKeeper.SetDenomMetaData(ctx, metadata)", "EditToken: d1 token.Mintable = mintable.ToBool()", "EditToken: d0 k.setToken(ctx, token)", "Keeper.BurnToken: d0 k.AddBurnCoin(ctx, coinBurnt)"]
+
 end Irismod.Gen.PureTokenFee
